@@ -355,7 +355,7 @@ func sacramento(rainfall, pet data.ND1Float64,
 						ratlp := 1. - alzfpc/alzfpm
 						ratls := 1. - alzfsc/alzfsm
 						percs := math.Min(alzfsm-alzfsc,
-							percfw*(1.-hpl*(ratlp+ratlp)/(ratlp+ratls)))
+							percfw*(1.-math.Min(1., hpl*(ratlp+ratlp)/(ratlp+ratls))))
 						alzfsc = alzfsc + percs
 						//             Check for spill from supplemental to primary
 						if alzfsc > alzfsm {
